@@ -151,7 +151,7 @@ func c09(r *vlib.Run) int {
 		hasJunk bool
 		shape   string
 	}
-	mkFile := func(lrng *rand.Rand, inA map[int]bool, allowJunk bool) (string, string) {
+	mkFile := func(lrng *rand.Rand, inA map[int]bool, allowJunk bool, off int) (string, string) {
 		var lines []string
 		shape := map[string]bool{}
 		var members []int
@@ -161,9 +161,36 @@ func c09(r *vlib.Run) int {
 			}
 		}
 		lrng.Shuffle(len(members), func(i, j int) { members[i], members[j] = members[j], members[i] })
+		longText := func(n int) string {
+			var b strings.Builder
+			for b.Len() < n {
+				fmt.Fprintf(&b, "10.%d.%d.0/24,", lrng.Intn(256), lrng.Intn(256))
+			}
+			return strings.TrimSuffix(b.String(), ",")
+		}
 		filler := func() {
 			for lrng.Intn(3) == 0 {
-				switch lrng.Intn(5) {
+				switch lrng.Intn(7) {
+				case 5:
+					// a comment line longer than any line buffer, ending in the
+					// text of a key that is NOT authorised
+					k := off
+					if inA[k] {
+						k = -1
+						for q := range pool {
+							if !inA[q] {
+								k = q
+								break
+							}
+						}
+					}
+					if k >= 0 {
+						lines = append(lines, "# revoked "+strings.Repeat("x", 3000+lrng.Intn(6000))+" "+pool[k].AuthKey+" old@host")
+						shape["long-comment-with-foreign-key"] = true
+					}
+				case 6:
+					lines = append(lines, "# "+longText(4000+lrng.Intn(9000)))
+					shape["long-comment"] = true
 				case 0:
 					lines = append(lines, "# a comment line")
 					shape["comment"] = true
@@ -197,6 +224,11 @@ func c09(r *vlib.Run) int {
 			case 2:
 				l = `from="10.0.0.0/8",no-agent-forwarding ` + l + " c"
 				shape["options"] = true
+			}
+			if lrng.Intn(8) == 0 {
+				// option list longer than any line buffer (4-13 KB)
+				l = `from="` + longText(4000+lrng.Intn(9000)) + `",no-pty ` + pool[k].AuthKey + " long@options"
+				shape["long-options"] = true
 			}
 			if lrng.Intn(6) == 0 {
 				l = "  " + l // leading blanks
@@ -245,7 +277,7 @@ func c09(r *vlib.Run) int {
 				// revoke / keep testing the key of the previous revision
 				off = c.offered[v-1]
 			}
-			text, shape := mkFile(rng, inA, !inA[off])
+			text, shape := mkFile(rng, inA, !inA[off], off)
 			c.revs = append(c.revs, text)
 			c.offered = append(c.offered, off)
 			c.expect = append(c.expect, inA[off])
